@@ -21,7 +21,7 @@ from lib import impl
 from lib.core import VERIF, cN, cbool, cbytes, clist, copt, vB, vL, vN, vbool
 
 PROPERTY = "C20"
-GEN: list = []
+GEN: list = ["types", "serdict"]
 RULE = (
     "Meta: dense enumeration of the 8748 presence/absence x false-y combinations of the nine serialisable fields "
     "(bool F/T; int None/0/n; str None/''/s) with random non-serialised fields (quick: seeded sample, thorough: all); "
@@ -43,10 +43,12 @@ ASSUMPTIONS = [
     "text is a sequence of Unicode scalar values (no lone surrogates); mtime is an opaque token (never serialised)",
     "from_dict inputs are typed: a dictionary holding a value of another Python type yields an ill-typed object "
     "in the implementation and is outside the model (model answer: error kind 100, never generated)",
-    "HashInfo.obj_name is not modelled (eq=False, never serialised)",
 ]
 
-IMPORTS = "From Coq Require Import NArith List.\nFrom DvcData Require Import Model.Serialize."
+SHARD_BYTES = 45_000
+
+IMPORTS = ("From Coq Require Import NArith List.\n"
+           "From DvcData Require Import Base.PyBase Gen.PyTypes Gen.SerDict Model.Serialize.")
 
 SER_BOOL = ("isdir", "isexec")
 SER_INT = ("size", "nfiles")
@@ -94,14 +96,14 @@ def cmeta(m):
 
 
 def cmeta1(m):
-    return ("(mkMeta %s %s %s %s %s %s %s %s %s %s %s %s %s %s)" % (
+    return ("(mk_meta %s %s %s %s %s %s %s %s %s %s %s %s %s %s)" % (
         cbool(m["isdir"]), coN(m["size"]), coN(m["nfiles"]), cbool(m["isexec"]), cotext(m["version_id"]),
         cotext(m["etag"]), cotext(m["checksum"]), cotext(m["md5"]), coN(m["inode"]), coN(mtime_token(m["mtime"])),
         cotext(m["remote"]), cbool(m["is_link"]), cotext(m["destination"]), cN(m["nlink"])))
 
 
 def chi1(h):
-    return "(mkHI %s %s)" % (cotext(h["name"]), cotext(h["value"]))
+    return "(mk_hashinfo %s %s %s)" % (cotext(h["name"]), cotext(h["value"]), cotext(h.get("obj_name")))
 
 
 def chi(h):
@@ -113,21 +115,21 @@ def ckey(k):
 
 
 def centry(e):
-    return "(mkEntry %s %s %s %s)" % (copt(e["key"], ckey), cmeta(e["meta"]), chi(e["hi"]),
+    return "(mk_ientry %s %s %s %s)" % (copt(e["key"], ckey), cmeta(e["meta"]), chi(e["hi"]),
                                       copt(e["loaded"], cbool))
 
 
 def cjv(x):
     if x is None:
-        return "JNull"
+        return "PVNone"
     if isinstance(x, bool):
-        return f"(JBool {cbool(x)})"
+        return f"(PVBool {cbool(x)})"
     if isinstance(x, int):
-        return f"(JInt {cN(x)})"
+        return f"(PVInt {cN(x)})"
     if isinstance(x, str):
-        return f"(JStr {ctext(x)})"
+        return f"(PVStr {ctext(x)})"
     if isinstance(x, dict):
-        return f"(JDict {cjdict(x)})"
+        return f"(PVDict {cjdict(x)})"
     raise TypeError(type(x))
 
 
@@ -136,17 +138,17 @@ def cjdict(d):
 
 
 def vjv(x):
-    """mirror of enc_jv; dict order = insertion order"""
+    """mirror of enc_pyv (Base/PyBase.v); dict order = insertion order"""
     if x is None:
         return vL([])
     if isinstance(x, bool):
-        return vL([vN(0), vbool(x)])
+        return vL([vN(1), vbool(x)])
     if isinstance(x, int):
-        return vL([vN(1), vN(x)])
+        return vL([vN(2), vN(x)])
     if isinstance(x, str):
-        return vL([vN(2), vB(x)])
+        return vL([vN(3), vB(x)])
     if isinstance(x, dict):
-        return vL([vN(3), vL([vL([vB(k), vjv(v)]) for k, v in x.items()])])
+        return vL([vN(4), vL([vL([vB(k), vjv(v)]) for k, v in x.items()])])
     raise TypeError(type(x))
 
 
@@ -182,7 +184,7 @@ def vmeta(m):
 
 
 def vhi(h):
-    return vL([vo(h.name, _str), vo(h.value, _str)])
+    return vL([vo(h.name, _str), vo(h.value, _str), vo(h.obj_name, _str)])
 
 
 def vkey(k):
@@ -222,7 +224,7 @@ def mk_meta(d):
 def mk_hi(d):
     from dvc_data.hashfile.hash_info import HashInfo
 
-    return None if d is None else HashInfo(d["name"], d["value"])
+    return None if d is None else HashInfo(d["name"], d["value"], d.get("obj_name"))
 
 
 def mk_entry(d):
@@ -272,12 +274,19 @@ def gen_meta(rng, ints=INTS):
 
 
 def gen_hi(rng):
-    return {"name": rng.choice(HASH_NAMES), "value": rng.choice(HASH_VALUES)}
+    return _obj_name(rng, {"name": rng.choice(HASH_NAMES), "value": rng.choice(HASH_VALUES)})
 
 
 def gen_good_hi(rng):
-    return {"name": rng.choice(["md5", "md5", "md5-dos2unix", "sha256", "etag"]),
-            "value": rng.choice([v for v in HASH_VALUES if v])}
+    return _obj_name(rng, {"name": rng.choice(["md5", "md5", "md5-dos2unix", "sha256", "etag"]),
+                           "value": rng.choice([v for v in HASH_VALUES if v])})
+
+
+def _obj_name(rng, h):
+    # eq=False, never serialised: must come back as None
+    if rng.random() < 0.15:
+        h["obj_name"] = rng.choice(["dir/ü", "", "o"])
+    return h
 
 
 def gen_key(rng, lo=1, hi=3, parts=PARTS_OK):
@@ -851,9 +860,13 @@ def run(ctx):
             items_by_group[fam2group[f]].append((case, inp, exp))
     ctx.obligation("oracle:round-trips", not any(v.kind == "oracle" for v in ctx.violations),
                    f"{judged} real round trips judged (field-wise and projection-wise) on the implementation's objects")
+    # coqc spends its time elaborating the case literals (vm_compute itself takes milliseconds): shard by
+    # text size so that the parallel coqc runs each get about SHARD_BYTES of literals
     for g, items in items_by_group.items():
         if items:
-            ctx.correspond(g, IMPORTS, "c20_in", "run_c20", items, shard=200)
+            size = sum(len(inp) + len(exp) for _, inp, exp in items)
+            shard = max(1, min(250, (len(items) * SHARD_BYTES) // max(size, 1)))
+            ctx.correspond(g, IMPORTS, "c20_in", "run_c20", items, shard=shard)
     ctx.extra["exhaustive"] = {"meta_field_combinations": ctx.tier != "quick", "hash_name_value_combinations": True}
 
 
